@@ -11,8 +11,14 @@ package remote
 //   op line:  C05 hist <cfg> <dom0> <dom1> <msgs>
 //     cfg  = <mtasts><preload><dane><dnssec>.<local: - | <minTLS><minMX>>.<override><relaxed>.<reuseLimit>
 //     dom  = <mxAD><sts a|n|t|e>:<mx>[;<mx>]     (MX candidates in preference order)
-//     mx   = <srv>.<up>.<starttls o|s|h|c>.<cert v|u|w>.<stsMatch>.<aAD>.<tlsaAD>.<tlsa n|e|t|m|u|f>.<reqtls>.<slow TLSA answer>[.<alias>]
-//     alias = <s|i><tlsa at the initial name n|e|t|m|u|f><its AD bit><CNAME-type query fails>
+//     mx   = <srv>.<up>.<starttls o|s|h|c>.<cert v|u|w>[<chain 1-6>].<stsMatch>.<aAD>.<tlsaAD>.<tlsa n|e|t|m|u|f|p|i|a>.<reqtls>.<slow TLSA answer>[.<alias>]
+//     chain = shape of the certificate chain the server presents: none = [leaf, issuer]; 1 [leaf, G], 2 [leaf, issuer, G],
+//            3 [leaf, G, issuer] with G = the GENUINE MX's end-entity certificate (trusted issuer, right names; the server
+//            does not hold its key); 4-6 the same with F = a foreign self-signed CA certificate in the place of G.
+//            The verdict v|u|w is about the leaf.  TLSA kinds p = DANE-EE (3 1 1) record of the extra certificate G/F,
+//            i = DANE-EE (3 0 1) record of the presented issuer certificate, a = DANE-TA (2 1 1) record of the extra
+//            certificate; p/a need a chain with an extra certificate, t/i one that contains the issuer.
+//     alias = <s|i><tlsa at the initial name n|e|t|m|u|f|p|i|a><its AD bit><CNAME-type query fails>
 //            the MX host name is a CNAME (s: signed CNAME RRset, i: unsigned) to a canonical name; aAD/tlsaAD/tlsa
 //            then describe the canonical name (address RRset, TLSA RRset), the alias field the TLSA RRset published
 //            at _25._tcp.<MX name> itself.  The AD bit of the canonical TLSA answer is aAD && tlsaAD (an RRset below an
@@ -20,6 +26,14 @@ package remote
 //     msgs = <msg>[/<msg>…]   msg = <requireTLS><tlsRequiredNo><quarantine 0|1|2>:<dom>[,<dom>…]
 //
 //   observation (one line): per message  r:<dom>=<ok|temp|perm>,… d:<srv>.<tls>.<requiretls param>.<reused>,…
+//
+//   op line:  C05 conc <cfg> <dom0> <dom1> <script> <msgs>        OVERLAPPING deliveries on one target
+//     script = <gate s|t|m><c|d><k><victim>: the first k (2-3) messages are deliveries that overlap in time: they are
+//            started one after the other while a lookup for domain 0 is held back (s: the MTA-STS policy fetch, t: the
+//            TLSA answers, m: the MX answer), then the context of delivery <victim> ends (c: cancelled, d: deadline
+//            exceeded) while the lookups are in flight (9: nobody), the victim's AddRcpt returns, the lookups are
+//            released, the other deliveries run to completion (body, commit in order; the victim is aborted).
+//            The remaining messages follow one after the other as in a `hist` case.  The victim's observation is `x`.
 //
 // The monitor (c05Monitor) evaluates the property from the scripted ground truth and what the
 // servers received; it does not look at the model or at the levels the code computed.
@@ -39,12 +53,14 @@ import (
 	"io"
 	"math/big"
 	"net"
+	"reflect"
 	"sort"
 	"strconv"
 	"strings"
 	"sync"
 	"testing"
 	"time"
+	"unsafe"
 
 	"github.com/emersion/go-message/textproto"
 	"github.com/emersion/go-smtp"
@@ -70,7 +86,9 @@ type c05MX struct {
 	stsMatch bool // listed in the MTA-STS policy
 	aAD      bool // AD on the A lookup of the MX host
 	tlsaAD   bool // AD on the TLSA lookup
-	tlsa     byte // n none, e EE matching, t TA matching, m mismatching, u unusable only, f SERVFAIL
+	chain    byte // 0: [leaf, issuer]; '1'..'6': a further certificate in the chain (see the op line description)
+	tlsa     byte // n none, e EE matching, t TA matching, m mismatching, u unusable only, f SERVFAIL,
+	// p EE record of the extra certificate, i EE record of the issuer, a TA record of the extra certificate
 	reqtls   bool // server implements REQUIRETLS
 	slow     bool // the TLSA answers for this host are delayed (fault sequence: lookup latency)
 	// the MX host name is an alias (CNAME): 0 no, 's' the CNAME RRset is DNSSEC-signed, 'i' it is not.
@@ -105,7 +123,18 @@ type c05Hist struct {
 	cfg  c05Cfg
 	doms [2]c05Dom
 	msgs []c05Msg
+	conc *c05Conc // nil: consecutive messages
 }
+
+// overlapping deliveries: see the op line description
+type c05Conc struct {
+	gate   byte // s MTA-STS fetch, t TLSA answers, m MX answer (domain 0)
+	kind   byte // c cancel, d deadline exceeded
+	k      int
+	victim int // index < k, or 9
+}
+
+func (c c05Conc) String() string { return fmt.Sprintf("%c%c%d%d", c.gate, c.kind, c.k, c.victim) }
 
 func c05b(b bool) string {
 	if b {
@@ -115,7 +144,11 @@ func c05b(b bool) string {
 }
 
 func (m c05MX) String() string {
-	s := fmt.Sprintf("%d.%s.%c.%c.%s.%s.%s.%c.%s.%s", m.srv, c05b(m.up), m.starttls, m.cert, c05b(m.stsMatch), c05b(m.aAD), c05b(m.tlsaAD), m.tlsa, c05b(m.reqtls), c05b(m.slow))
+	cert := string(m.cert)
+	if m.chain != 0 {
+		cert += string(m.chain)
+	}
+	s := fmt.Sprintf("%d.%s.%c.%s.%s.%s.%s.%c.%s.%s", m.srv, c05b(m.up), m.starttls, cert, c05b(m.stsMatch), c05b(m.aAD), c05b(m.tlsaAD), m.tlsa, c05b(m.reqtls), c05b(m.slow))
 	if m.alias != 0 {
 		s += fmt.Sprintf(".%c%c%s%s", m.alias, m.tlsaI, c05b(m.tlsaIAD), c05b(m.cnameErr))
 	}
@@ -151,12 +184,28 @@ func (h c05Hist) Op() string {
 	for _, m := range h.msgs {
 		ms = append(ms, m.String())
 	}
+	if h.conc != nil {
+		return fmt.Sprintf("C05 conc %s %s %s %s %s", h.cfg, h.doms[0], h.doms[1], *h.conc, strings.Join(ms, "/"))
+	}
 	return fmt.Sprintf("C05 hist %s %s %s %s", h.cfg, h.doms[0], h.doms[1], strings.Join(ms, "/"))
+}
+
+const c05TLSAKinds = "netmufpia"
+
+// a record kind needs the certificate it refers to in the presented chain
+func c05KindOK(kind, chain byte) bool {
+	switch kind {
+	case 'p', 'a':
+		return chain != 0
+	case 't', 'i':
+		return chain != '1' && chain != '4'
+	}
+	return true
 }
 
 func c05ParseMX(s string) (c05MX, error) {
 	f := strings.Split(s, ".")
-	if (len(f) != 10 && len(f) != 11) || len(f[2]) != 1 || len(f[3]) != 1 || len(f[7]) != 1 {
+	if (len(f) != 10 && len(f) != 11) || len(f[2]) != 1 || (len(f[3]) != 1 && len(f[3]) != 2) || len(f[7]) != 1 {
 		return c05MX{}, errors.New("bad mx " + s)
 	}
 	srv, err := strconv.Atoi(f[0])
@@ -165,9 +214,17 @@ func c05ParseMX(s string) (c05MX, error) {
 	}
 	m := c05MX{srv: srv, up: f[1] == "1", starttls: f[2][0], cert: f[3][0], stsMatch: f[4] == "1", aAD: f[5] == "1",
 		tlsaAD: f[6] == "1", tlsa: f[7][0], reqtls: f[8] == "1", slow: f[9] == "1"}
+	if len(f[3]) == 2 {
+		if m.chain = f[3][1]; m.chain < '1' || m.chain > '6' {
+			return c05MX{}, errors.New("bad chain " + s)
+		}
+	}
+	if !strings.ContainsRune("vuw", rune(m.cert)) || !strings.ContainsRune(c05TLSAKinds, rune(m.tlsa)) || !c05KindOK(m.tlsa, m.chain) {
+		return c05MX{}, errors.New("bad cert / tlsa " + s)
+	}
 	if len(f) == 11 {
 		a := f[10]
-		if len(a) != 4 || (a[0] != 's' && a[0] != 'i') || !strings.ContainsRune("netmuf", rune(a[1])) {
+		if len(a) != 4 || (a[0] != 's' && a[0] != 'i') || !strings.ContainsRune(c05TLSAKinds, rune(a[1])) || !c05KindOK(a[1], m.chain) {
 			return c05MX{}, errors.New("bad alias " + s)
 		}
 		m.alias, m.tlsaI, m.tlsaIAD, m.cnameErr = a[0], a[1], a[2] == '1', a[3] == '1'
@@ -194,7 +251,17 @@ func c05ParseDom(s string) (c05Dom, error) {
 func c05ParseOp(op string) (c05Hist, error) {
 	var h c05Hist
 	t := strings.Fields(op)
-	if len(t) != 6 || t[0] != "C05" || t[1] != "hist" {
+	if len(t) == 7 && t[0] == "C05" && t[1] == "conc" {
+		sc := t[5]
+		if len(sc) != 4 || !strings.ContainsRune("stm", rune(sc[0])) || !strings.ContainsRune("cd", rune(sc[1])) {
+			return h, errors.New("bad script")
+		}
+		h.conc = &c05Conc{gate: sc[0], kind: sc[1], k: int(sc[2] - '0'), victim: int(sc[3] - '0')}
+		if h.conc.k < 2 || h.conc.k > 3 || !(h.conc.victim < h.conc.k || h.conc.victim == 9) || h.conc.victim < 0 {
+			return h, errors.New("bad script")
+		}
+		t = append(t[:5:5], t[6])
+	} else if len(t) != 6 || t[0] != "C05" || t[1] != "hist" {
 		return h, errors.New("bad op")
 	}
 	cf := strings.Split(t[2], ".")
@@ -234,7 +301,34 @@ func c05ParseOp(op string) (c05Hist, error) {
 		}
 		h.msgs = append(h.msgs, m)
 	}
+	if h.conc != nil && !c05ConcOK(h) {
+		return h, errors.New("ill-formed batch")
+	}
 	return h, nil
+}
+
+// well-formed batch (the same rule as `concOK` of the Lean driver): at least k messages; every overlapping delivery
+// starts with a recipient in domain 0 and is not refused before it looks anything up; the victim is held at the gate
+// for certain (gate s: MTA-STS applies to it); later messages only where the victim's effect on the pool is
+// determined (not with the TLSA gate)
+func c05ConcOK(h c05Hist) bool {
+	c := h.conc
+	if len(h.msgs) < c.k {
+		return false
+	}
+	for _, m := range h.msgs[:c.k] {
+		if m.rcpts[0] != 0 || m.quarantine == 1 {
+			return false
+		}
+	}
+	if c.victim == 9 {
+		return true
+	}
+	v := h.msgs[c.victim]
+	if c.gate == 's' && !c05PoliciesInForce(h.cfg, v).mtasts {
+		return false
+	}
+	return c.gate != 't' || len(h.msgs) == c.k
 }
 
 // ---------------------------------------------------------------- certificates
@@ -245,6 +339,43 @@ type c05PKI struct {
 	chain map[byte]tls.Certificate
 	leaf  map[byte]*x509.Certificate
 	ca    map[byte]*x509.Certificate
+	// certificates that servers replay without holding the key: the genuine MX's end-entity certificate (trusted
+	// issuer, right names) and a foreign self-signed CA certificate
+	genuine, foreignCA *x509.Certificate
+}
+
+// the certificate that a chain of shape '1'..'6' contains besides the leaf and its issuer
+func (p *c05PKI) extra(chain byte) *x509.Certificate {
+	switch chain {
+	case '1', '2', '3':
+		return p.genuine
+	case '4', '5', '6':
+		return p.foreignCA
+	}
+	return nil
+}
+
+// the certificates a server of kind cert with chain shape `chain` presents, in order
+func (p *c05PKI) presented(cert, chain byte) []*x509.Certificate {
+	leaf, iss, x := p.leaf[cert], p.ca[cert], p.extra(chain)
+	switch chain {
+	case '1', '4':
+		return []*x509.Certificate{leaf, x}
+	case '2', '5':
+		return []*x509.Certificate{leaf, iss, x}
+	case '3', '6':
+		return []*x509.Certificate{leaf, x, iss}
+	}
+	return []*x509.Certificate{leaf, iss}
+}
+
+func (p *c05PKI) tlsCert(cert, chain byte) tls.Certificate {
+	c := p.chain[cert]
+	out := tls.Certificate{PrivateKey: c.PrivateKey, Leaf: c.Leaf}
+	for _, x := range p.presented(cert, chain) {
+		out.Certificate = append(out.Certificate, x.Raw)
+	}
+	return out
 }
 
 func c05MkCert(tmpl, parent *x509.Certificate, pub *ecdsa.PublicKey, signer *ecdsa.PrivateKey) *x509.Certificate {
@@ -290,12 +421,46 @@ func c05NewPKI() *c05PKI {
 		p.leaf[k] = c.Leaf
 	}
 	p.ca['v'], p.ca['u'], p.ca['w'] = good, evil, good
+	p.genuine = mkLeaf(good, goodK, names).Leaf
+	p.foreignCA, _ = mkCA("c05 foreign CA")
 	return p
 }
 
 func c05SPKIHash(c *x509.Certificate) string {
 	h := sha256.Sum256(c.RawSubjectPublicKeyInfo)
 	return hex.EncodeToString(h[:])
+}
+
+func c05CertHash(c *x509.Certificate) string {
+	h := sha256.Sum256(c.Raw)
+	return hex.EncodeToString(h[:])
+}
+
+// one published TLSA record
+type c05Rec struct {
+	usage, selector, mtype uint8
+	data                   string
+}
+
+// the RRset of the given kind for a server with this certificate / chain
+func c05TLSARecs(pki *c05PKI, kind, cert, chain byte) []c05Rec {
+	switch kind {
+	case 'e':
+		return []c05Rec{{3, 1, 1, c05SPKIHash(pki.leaf[cert])}}
+	case 't':
+		return []c05Rec{{2, 1, 1, c05SPKIHash(pki.ca[cert])}}
+	case 'm':
+		return []c05Rec{{3, 1, 1, strings.Repeat("ab", 32)}}
+	case 'u':
+		return []c05Rec{{1, 1, 1, c05SPKIHash(pki.leaf[cert])}}
+	case 'p':
+		return []c05Rec{{3, 1, 1, c05SPKIHash(pki.extra(chain))}}
+	case 'i':
+		return []c05Rec{{3, 0, 1, c05CertHash(pki.ca[cert])}}
+	case 'a':
+		return []c05Rec{{2, 1, 1, c05SPKIHash(pki.extra(chain))}}
+	}
+	return nil
 }
 
 // ---------------------------------------------------------------- scripted servers
@@ -311,9 +476,21 @@ type c05Event struct {
 
 type c05World struct {
 	mu     sync.Mutex
-	cur    int
 	events []c05Event
 	mails  map[string]int // connection (server id + client address) -> MAIL commands so far
+}
+
+// the sender address carries the index of the message in the history (deliveries may overlap)
+func c05Sender(mi int) string { return fmt.Sprintf("s%d@src.invalid", mi) }
+
+func c05MsgOfSender(from string) int {
+	from = strings.TrimPrefix(from, "s")
+	if i := strings.IndexByte(from, '@'); i > 0 {
+		if n, err := strconv.Atoi(from[:i]); err == nil {
+			return n
+		}
+	}
+	return -1
 }
 
 type c05Backend struct {
@@ -326,6 +503,7 @@ type c05Session struct {
 	conn   *smtp.Conn
 	rt     bool
 	reused bool
+	msg    int
 }
 
 func (b *c05Backend) NewSession(c *smtp.Conn) (smtp.Session, error) {
@@ -342,9 +520,10 @@ func (s *c05Session) Mail(from string, opts *smtp.MailOptions) error {
 	key := fmt.Sprintf("%d/%s", s.b.srv, s.conn.Conn().RemoteAddr())
 	s.rt = opts != nil && opts.RequireTLS
 	s.reused = w.mails[key] > 0
+	s.msg = c05MsgOfSender(from)
 	w.mails[key]++
 	_, isTLS := s.conn.TLSConnectionState()
-	w.events = append(w.events, c05Event{msg: w.cur, srv: s.b.srv, kind: "mail", tls: isTLS, rtParm: s.rt, reused: s.reused})
+	w.events = append(w.events, c05Event{msg: s.msg, srv: s.b.srv, kind: "mail", tls: isTLS, rtParm: s.rt, reused: s.reused})
 	return nil
 }
 
@@ -358,7 +537,7 @@ func (s *c05Session) Data(r io.Reader) error {
 	w.mu.Lock()
 	defer w.mu.Unlock()
 	_, isTLS := s.conn.TLSConnectionState()
-	w.events = append(w.events, c05Event{msg: w.cur, srv: s.b.srv, kind: "data", tls: isTLS, rtParm: s.rt, reused: s.reused})
+	w.events = append(w.events, c05Event{msg: s.msg, srv: s.b.srv, kind: "data", tls: isTLS, rtParm: s.rt, reused: s.reused})
 	return nil
 }
 
@@ -411,7 +590,7 @@ func c05StartServer(t *testing.T, w *c05World, pki *c05PKI, mx c05MX) (*smtp.Ser
 	s.EnableREQUIRETLS = mx.reqtls
 	s.ErrorLog = c05NopLog{}
 	if mx.starttls != 's' {
-		s.TLSConfig = &tls.Config{Certificates: []tls.Certificate{pki.chain[mx.cert]}}
+		s.TLSConfig = &tls.Config{Certificates: []tls.Certificate{pki.tlsCert(mx.cert, mx.chain)}}
 		if mx.starttls == 'h' {
 			s.TLSConfig.MinVersion = tls.VersionTLS11
 			s.TLSConfig.MaxVersion = tls.VersionTLS11
@@ -453,22 +632,18 @@ func c05TLSANames(m c05MX) []string {
 	return []string{"_25._tcp." + c05MXHost(m)}
 }
 
-// c05TLSAZone publishes an RRset of the given kind (relative to the certificate the server presents) at tn.
-func c05TLSAZone(z map[string]mockdns.Zone, pki *c05PKI, tn string, kind, cert byte, ad bool) {
-	rec := func(usage, sel, mt uint8, data string) map[miekgdns.Type][]miekgdns.RR {
-		return tlsaRecord(tn, usage, mt, sel, data)
-	}
-	switch kind {
-	case 'e':
-		z[tn] = mockdns.Zone{AD: ad, Misc: rec(3, 1, 1, c05SPKIHash(pki.leaf[cert]))}
-	case 't':
-		z[tn] = mockdns.Zone{AD: ad, Misc: rec(2, 1, 1, c05SPKIHash(pki.ca[cert]))}
-	case 'm':
-		z[tn] = mockdns.Zone{AD: ad, Misc: rec(3, 1, 1, strings.Repeat("ab", 32))}
-	case 'u':
-		z[tn] = mockdns.Zone{AD: ad, Misc: rec(1, 1, 1, c05SPKIHash(pki.leaf[cert]))}
-	case 'f':
+// c05TLSAZone publishes an RRset of the given kind (relative to the chain the server presents) at tn.
+func c05TLSAZone(z map[string]mockdns.Zone, pki *c05PKI, tn string, kind byte, m c05MX, ad bool) {
+	if kind == 'f' {
 		z[tn] = mockdns.Zone{AD: ad, Err: &net.DNSError{Err: "scripted failure"}}
+		return
+	}
+	var rrs []miekgdns.RR
+	for _, r := range c05TLSARecs(pki, kind, m.cert, m.chain) {
+		rrs = append(rrs, tlsaRecord(tn, r.usage, r.mtype, r.selector, r.data)[miekgdns.Type(miekgdns.TypeTLSA)]...)
+	}
+	if len(rrs) > 0 {
+		z[tn] = mockdns.Zone{AD: ad, Misc: map[miekgdns.Type][]miekgdns.RR{miekgdns.Type(miekgdns.TypeTLSA): rrs}}
 	}
 	// 'n': no such name (NXDOMAIN)
 }
@@ -486,7 +661,7 @@ func c05Zones(h c05Hist, pki *c05PKI) map[string]mockdns.Zone {
 			}
 			if m.alias == 0 {
 				z[host] = mockdns.Zone{AD: m.aAD, A: []string{a}}
-				c05TLSAZone(z, pki, "_25._tcp."+host, m.tlsa, m.cert, m.tlsaAD)
+				c05TLSAZone(z, pki, "_25._tcp."+host, m.tlsa, m, m.tlsaAD)
 				continue
 			}
 			// alias: the address answer carries AD only if the CNAME RRset AND the address RRset are
@@ -494,15 +669,63 @@ func c05Zones(h c05Hist, pki *c05PKI) map[string]mockdns.Zone {
 			canon := c05CanonHost(m)
 			z[host] = mockdns.Zone{AD: m.alias == 's', CNAME: canon}
 			z[canon] = mockdns.Zone{AD: m.aAD, A: []string{a}}
-			c05TLSAZone(z, pki, "_25._tcp."+canon, m.tlsa, m.cert, m.aAD && m.tlsaAD)
-			c05TLSAZone(z, pki, "_25._tcp."+host, m.tlsaI, m.cert, m.tlsaIAD)
+			c05TLSAZone(z, pki, "_25._tcp."+canon, m.tlsa, m, m.aAD && m.tlsaAD)
+			c05TLSAZone(z, pki, "_25._tcp."+host, m.tlsaI, m, m.tlsaIAD)
 		}
 		z[fmt.Sprintf("d%d.invalid.", di)] = mockdns.Zone{AD: d.mxAD, MX: mxs}
 	}
 	return z
 }
 
+// c05Gate holds back one kind of lookup for domain 0 until it is released, and counts what arrives.
+type c05Gate struct {
+	kind    byte // s MTA-STS fetch, t TLSA answers, m MX answer; 0: nothing is held back
+	mu      sync.Mutex
+	open    bool
+	release chan struct{}
+	held    int // lookups that arrived while the gate was closed
+	mxSeen  int // MX queries for domain 0 seen by the DNS front end (every new connection attempt makes one)
+}
+
+func (g *c05Gate) counts() (held, mxSeen int) {
+	g.mu.Lock()
+	defer g.mu.Unlock()
+	return g.held, g.mxSeen
+}
+
+func (g *c05Gate) Release() {
+	g.mu.Lock()
+	defer g.mu.Unlock()
+	if !g.open {
+		g.open = true
+		close(g.release)
+	}
+}
+
+// wait blocks a lookup of the gated kind until the gate opens or ctx is done (nil ctx: until it opens; the
+// harness always releases the gate, at the latest when the case ends)
+func (g *c05Gate) wait(ctx context.Context) error {
+	g.mu.Lock()
+	if g.open {
+		g.mu.Unlock()
+		return nil
+	}
+	g.held++
+	g.mu.Unlock()
+	if ctx == nil {
+		<-g.release
+		return nil
+	}
+	select {
+	case <-g.release:
+		return nil
+	case <-ctx.Done():
+		return ctx.Err()
+	}
+}
+
 type c05Env struct {
+	gate     *c05Gate
 	tgt      *Target
 	dnsSrv   *mockdns.Server
 	servers  []*smtp.Server
@@ -513,6 +736,9 @@ type c05Env struct {
 }
 
 func (e *c05Env) Close() {
+	if e.gate != nil {
+		e.gate.Release()
+	}
 	e.tgt.Close()
 	if e.sts != nil {
 		e.sts.Close()
@@ -538,6 +764,11 @@ func c05Setup(t *testing.T, h c05Hist, pki *c05PKI, rng *vh.Rng, verbose bool) *
 	if !verbose {
 		tgt.Log = c05Quiet
 	}
+	if h.conc != nil {
+		env.gate = &c05Gate{kind: h.conc.gate, release: make(chan struct{})}
+		// answers are held back for as long as the schedule needs: no resolver time-out may fire meanwhile
+		c05LongDNSTimeouts(tgt.extResolver)
+	}
 	slow := map[string]bool{}
 	failCNAME := map[string]bool{}
 	for _, d := range h.doms {
@@ -552,16 +783,33 @@ func c05Setup(t *testing.T, h c05Hist, pki *c05PKI, rng *vh.Rng, verbose bool) *
 			}
 		}
 	}
-	if len(slow) > 0 || len(failCNAME) > 0 {
+	if len(slow) > 0 || len(failCNAME) > 0 || env.gate != nil {
 		pc, err := net.ListenPacket("udp4", "127.0.0.1:0")
 		if err != nil {
 			t.Fatal(err)
 		}
 		started := make(chan struct{})
-		env.dnsFront = &miekgdns.Server{PacketConn: pc, Handler: c05SlowDNS{inner: dnsSrv, slow: slow, failCNAME: failCNAME}, NotifyStartedFunc: func() { close(started) }}
+		env.dnsFront = &miekgdns.Server{PacketConn: pc, Handler: c05SlowDNS{inner: dnsSrv, slow: slow, failCNAME: failCNAME, gate: env.gate}, NotifyStartedFunc: func() { close(started) }}
 		go env.dnsFront.ActivateAndServe()
 		<-started
 		tgt.extResolver.Cfg.Port = strconv.Itoa(pc.LocalAddr().(*net.UDPAddr).Port)
+	}
+	// The production dialer ((&net.Dialer{}).DialContext) does not dial on a context that is done; the mockdns dialer
+	// of the repo's test helper ignores its context.
+	mockDial := tgt.dialer
+	tgt.dialer = func(ctx context.Context, network, addr string) (net.Conn, error) {
+		if err := ctx.Err(); err != nil {
+			return nil, &net.OpError{Op: "dial", Net: network, Err: err}
+		}
+		// contexts derived from the harness's own context type learn of its end through a goroutine, i.e. a little
+		// later; for the decision to dial the end of the root counts (as if the whole tree ended at one instant,
+		// which is what the standard library's contexts give up to a few instructions)
+		if root, ok := ctx.Value(c05RootKey{}).(*c05ManualCtx); ok {
+			if err := root.Err(); err != nil {
+				return nil, &net.OpError{Op: "dial", Net: network, Err: err}
+			}
+		}
+		return mockDial(ctx, network, addr)
 	}
 	tgt.tlsConfig = &tls.Config{RootCAs: pki.roots}
 	tgt.connReuseLimit = h.cfg.reuse
@@ -601,7 +849,14 @@ func c05Setup(t *testing.T, h c05Hist, pki *c05PKI, rng *vh.Rng, verbose bool) *
 		switch p := p.(type) {
 		case *mtastsPolicy:
 			doms := h.doms
-			p.mtastsGet = func(_ context.Context, domain string) (*mtasts.Policy, error) {
+			gate := env.gate
+			p.mtastsGet = func(ctx context.Context, domain string) (*mtasts.Policy, error) {
+				// a fetcher that blocks until released and honours the context of its caller
+				if gate != nil && gate.kind == 's' && domain == "d0.invalid" {
+					if err := gate.wait(ctx); err != nil {
+						return nil, err
+					}
+				}
 				var d c05Dom
 				switch domain {
 				case "d0.invalid":
@@ -689,6 +944,21 @@ type c05SlowDNS struct {
 	inner     miekgdns.Handler
 	slow      map[string]bool // TLSA owner names whose answers are delayed
 	failCNAME map[string]bool // names whose CNAME-type query is answered SERVFAIL
+	gate      *c05Gate        // overlapping deliveries: answers held back until released
+}
+
+// The resolver's UDP client gives up after 2 s (miekg/dns default) or the time-out of resolv.conf; answers that
+// the schedule of a `conc` case holds back must not run into that on a loaded machine.
+func c05LongDNSTimeouts(r *dns.ExtResolver) {
+	f := reflect.ValueOf(r).Elem().FieldByName("cl")
+	if !f.IsValid() || f.Kind() != reflect.Ptr || f.IsNil() {
+		panic("c05: ExtResolver.cl not found")
+	}
+	cl := (*miekgdns.Client)(unsafe.Pointer(f.Pointer()))
+	cl.Timeout = 120 * time.Second
+	if d := cl.Dialer; d != nil {
+		d.Timeout = 120 * time.Second
+	}
 }
 
 func (h c05SlowDNS) ServeDNS(w miekgdns.ResponseWriter, m *miekgdns.Msg) {
@@ -697,6 +967,19 @@ func (h c05SlowDNS) ServeDNS(w miekgdns.ResponseWriter, m *miekgdns.Msg) {
 		name := strings.ToLower(q.Name)
 		if q.Qtype == miekgdns.TypeTLSA && h.slow[name] {
 			time.Sleep(c05SlowDelay)
+		}
+		if g := h.gate; g != nil {
+			if q.Qtype == miekgdns.TypeMX && name == "d0.invalid." {
+				g.mu.Lock()
+				g.mxSeen++
+				g.mu.Unlock()
+				if g.kind == 'm' {
+					g.wait(nil)
+				}
+			}
+			if q.Qtype == miekgdns.TypeTLSA && g.kind == 't' && (strings.HasSuffix(name, ".d0.invalid.") || name == "_25._tcp.h1.canon.invalid." || name == "_25._tcp.h2.canon.invalid.") {
+				g.wait(nil)
+			}
 		}
 		if q.Qtype == miekgdns.TypeCNAME && h.failCNAME[name] {
 			reply := new(miekgdns.Msg)
@@ -732,71 +1015,241 @@ func c05Cls(err error) string {
 }
 
 type c05MsgObs struct {
-	rcpt []string // per recipient, in order: ok|temp|perm (after the body stage)
-	errs []string
+	rcpt   []string // per recipient, in order: ok|temp|perm (after the body stage)
+	errs   []string
+	victim bool // the delivery was cancelled and aborted: its recipient results are not part of the observation
+}
+
+// one delivery through the target, in the three stages its caller drives
+type c05Delivery struct {
+	mi       int
+	m        c05Msg
+	meta     *module.MsgMetadata
+	d        module.Delivery
+	addrs    []string
+	accepted int
+	o        c05MsgObs
+}
+
+func c05Begin(t *testing.T, env *c05Env, mi int, m c05Msg) *c05Delivery {
+	dl := &c05Delivery{mi: mi, m: m}
+	dl.meta = &module.MsgMetadata{
+		ID:                 fmt.Sprintf("c05msg%d", mi),
+		OriginalFrom:       c05Sender(mi),
+		DontTraceSender:    true,
+		SMTPOpts:           smtp.MailOptions{RequireTLS: m.requireTLS},
+		TLSRequireOverride: m.tlsNo,
+		Quarantine:         m.quarantine == 1,
+	}
+	dl.o = c05MsgObs{rcpt: make([]string, len(m.rcpts)), errs: make([]string, len(m.rcpts))}
+	var err error
+	if dl.d, err = env.tgt.Start(context.Background(), dl.meta, c05Sender(mi)); err != nil {
+		t.Fatal("Start: ", err)
+	}
+	dl.addrs = make([]string, len(m.rcpts))
+	return dl
+}
+
+func (dl *c05Delivery) addRcpts(ctx context.Context) {
+	for i, d := range dl.m.rcpts {
+		dl.addrs[i] = fmt.Sprintf("u%d@d%d.invalid", i, d)
+		err := dl.d.AddRcpt(ctx, dl.addrs[i], smtp.RcptOptions{})
+		dl.o.rcpt[i] = c05Cls(err)
+		if err != nil {
+			dl.o.errs[i] = err.Error()
+		} else {
+			dl.accepted++
+		}
+	}
+}
+
+// body stage and commit (or abort when no recipient was accepted)
+func (dl *c05Delivery) finish(t *testing.T, ctx context.Context) {
+	m, o := dl.m, &dl.o
+	if dl.accepted > 0 {
+		if m.quarantine == 2 {
+			dl.meta.Quarantine = true
+		}
+		col := &c05Collector{st: map[string]error{}}
+		hdr := textproto.Header{}
+		hdr.Add("Subject", "c05")
+		dl.d.(module.PartialDelivery).BodyNonAtomic(ctx, col, hdr, buffer.MemoryBuffer{Slice: []byte("secret content\r\n")})
+		for i := range m.rcpts {
+			if o.rcpt[i] != "ok" {
+				continue
+			}
+			err, ok := col.st[dl.addrs[i]]
+			if !ok {
+				o.rcpt[i] = "nostatus"
+				continue
+			}
+			o.rcpt[i] = c05Cls(err)
+			if err != nil {
+				o.errs[i] = err.Error()
+			}
+		}
+		if err := dl.d.Commit(ctx); err != nil {
+			t.Fatal("Commit: ", err)
+		}
+	} else if err := dl.d.Abort(ctx); err != nil {
+		t.Fatal("Abort: ", err)
+	}
 }
 
 func c05Run(t *testing.T, h c05Hist, env *c05Env) []c05MsgObs {
 	ctx := context.Background()
 	var obs []c05MsgObs
-	for mi, m := range h.msgs {
-		env.world.mu.Lock()
-		env.world.cur = mi
-		env.world.mu.Unlock()
-		meta := &module.MsgMetadata{
-			ID:                 fmt.Sprintf("c05msg%d", mi),
-			OriginalFrom:       "sender@src.invalid",
-			DontTraceSender:    true,
-			SMTPOpts:           smtp.MailOptions{RequireTLS: m.requireTLS},
-			TLSRequireOverride: m.tlsNo,
-			Quarantine:         m.quarantine == 1,
+	first := 0
+	if h.conc != nil {
+		obs = c05RunConc(t, h, env)
+		first = h.conc.k
+	}
+	for mi := first; mi < len(h.msgs); mi++ {
+		dl := c05Begin(t, env, mi, h.msgs[mi])
+		dl.addRcpts(ctx)
+		dl.finish(t, ctx)
+		obs = append(obs, dl.o)
+	}
+	return obs
+}
+
+// a context whose end the harness decides: cancelled, or "deadline exceeded" without any clock
+type c05ManualCtx struct {
+	context.Context
+	done chan struct{}
+	mu   sync.Mutex
+	err  error
+}
+
+func c05NewManualCtx() *c05ManualCtx {
+	return &c05ManualCtx{Context: context.Background(), done: make(chan struct{})}
+}
+
+func (c *c05ManualCtx) Done() <-chan struct{} { return c.done }
+
+type c05RootKey struct{}
+
+func (c *c05ManualCtx) Value(key interface{}) interface{} {
+	if _, ok := key.(c05RootKey); ok {
+		return c
+	}
+	return c.Context.Value(key)
+}
+
+func (c *c05ManualCtx) Err() error {
+	c.mu.Lock()
+	defer c.mu.Unlock()
+	return c.err
+}
+
+func (c *c05ManualCtx) end(err error) {
+	c.mu.Lock()
+	defer c.mu.Unlock()
+	if c.err == nil {
+		c.err = err
+		close(c.done)
+	}
+}
+
+// generous bound for the harness's own waiting (polling; nothing is asserted about durations)
+const c05WaitMax = 60 * time.Second
+
+func c05WaitFor(cond func() bool) bool {
+	deadline := time.Now().Add(c05WaitMax)
+	for i := 0; !cond(); i++ {
+		if time.Now().After(deadline) {
+			return false
 		}
-		o := c05MsgObs{rcpt: make([]string, len(m.rcpts)), errs: make([]string, len(m.rcpts))}
-		delivery, err := env.tgt.Start(ctx, meta, "sender@src.invalid")
-		if err != nil {
-			t.Fatal("Start: ", err)
+		if i < 200 {
+			time.Sleep(50 * time.Microsecond)
+		} else {
+			time.Sleep(time.Millisecond)
 		}
-		addrs := make([]string, len(m.rcpts))
-		accepted := 0
-		for i, d := range m.rcpts {
-			addrs[i] = fmt.Sprintf("u%d@d%d.invalid", i, d)
-			err := delivery.AddRcpt(ctx, addrs[i], smtp.RcptOptions{})
-			o.rcpt[i] = c05Cls(err)
-			if err != nil {
-				o.errs[i] = err.Error()
-			} else {
-				accepted++
-			}
+	}
+	return true
+}
+
+// c05RunConc drives the overlapping deliveries of a `conc` case (see the op line description).  Every step of the
+// schedule waits for an observable fact (a lookup arrived at the gate, an MX query was seen, AddRcpt returned), never
+// for time to pass.
+func c05RunConc(t *testing.T, h c05Hist, env *c05Env) []c05MsgObs {
+	c, g := h.conc, env.gate
+	dls := make([]*c05Delivery, c.k)
+	done := make([]chan struct{}, c.k)
+	isDone := func(i int) bool {
+		select {
+		case <-done[i]:
+			return true
+		default:
+			return false
 		}
-		if accepted > 0 {
-			if m.quarantine == 2 {
-				meta.Quarantine = true
-			}
-			col := &c05Collector{st: map[string]error{}}
-			hdr := textproto.Header{}
-			hdr.Add("Subject", "c05")
-			delivery.(module.PartialDelivery).BodyNonAtomic(ctx, col, hdr, buffer.MemoryBuffer{Slice: []byte("secret content\r\n")})
-			for i := range m.rcpts {
-				if o.rcpt[i] != "ok" {
-					continue
-				}
-				err, ok := col.st[addrs[i]]
-				if !ok {
-					o.rcpt[i] = "nostatus"
-					continue
-				}
-				o.rcpt[i] = c05Cls(err)
-				if err != nil {
-					o.errs[i] = err.Error()
-				}
-			}
-			if err := delivery.Commit(ctx); err != nil {
-				t.Fatal("Commit: ", err)
-			}
-		} else if err := delivery.Abort(ctx); err != nil {
-			t.Fatal("Abort: ", err)
+	}
+	var victimCtx *c05ManualCtx
+	stuck := func(what string) {
+		t.Errorf("c05 conc: %s did not happen within %v: %s", what, c05WaitMax, h.Op())
+	}
+	for i := 0; i < c.k; i++ {
+		dls[i] = c05Begin(t, env, i, h.msgs[i])
+		done[i] = make(chan struct{})
+		var ctx context.Context = context.Background()
+		if i == c.victim {
+			victimCtx = c05NewManualCtx()
+			ctx = victimCtx
 		}
-		obs = append(obs, o)
+		held0, mx0 := g.counts()
+		go func(i int, ctx context.Context) {
+			defer close(done[i])
+			dls[i].addRcpts(ctx)
+		}(i, ctx)
+		// the delivery is under way: it asked for the MX records of domain 0 (PrepareDomain of every policy has been
+		// called by then) and, where the gate is one it must reach, its lookup is held there — or it is over already
+		if !c05WaitFor(func() bool {
+			if isDone(i) {
+				return true
+			}
+			held, mx := g.counts()
+			if mx <= mx0 {
+				return false
+			}
+			return c.gate == 's' || held > held0
+		}) {
+			stuck(fmt.Sprintf("start of delivery %d", i))
+			g.Release()
+			return nil
+		}
+	}
+	if victimCtx != nil {
+		if c.kind == 'd' {
+			victimCtx.end(context.DeadlineExceeded)
+		} else {
+			victimCtx.end(context.Canceled)
+		}
+		// the fetcher and the policies' waits take the delivery's context: the cancelled AddRcpt returns while the
+		// lookups are still held back.  The MX lookup does not take it (context.Background() in lookupMX): with that
+		// gate the victim goes on when the answer comes, with a context that is done.
+		if c.gate != 'm' && !c05WaitFor(func() bool { return isDone(c.victim) }) {
+			stuck("return of the cancelled AddRcpt")
+		}
+	}
+	g.Release()
+	for i := 0; i < c.k; i++ {
+		if !c05WaitFor(func() bool { return isDone(i) }) {
+			stuck(fmt.Sprintf("end of AddRcpt of delivery %d", i))
+			return nil
+		}
+	}
+	var obs []c05MsgObs
+	for i := 0; i < c.k; i++ {
+		if i == c.victim {
+			// the caller of a cancelled delivery gives up
+			if err := dls[i].d.Abort(context.Background()); err != nil {
+				t.Fatal("Abort: ", err)
+			}
+			dls[i].o.victim = true
+		} else {
+			dls[i].finish(t, context.Background())
+		}
+		obs = append(obs, dls[i].o)
 	}
 	return obs
 }
@@ -804,6 +1257,10 @@ func c05Run(t *testing.T, h c05Hist, env *c05Env) []c05MsgObs {
 func c05Observation(h c05Hist, obs []c05MsgObs, events []c05Event) string {
 	var parts []string
 	for mi, m := range h.msgs {
+		if obs[mi].victim {
+			parts = append(parts, "x")
+			continue
+		}
 		var rs []string
 		for i, d := range m.rcpts {
 			rs = append(rs, fmt.Sprintf("%d=%s", d, obs[mi].rcpt[i]))
@@ -858,7 +1315,7 @@ func c05Governing(m c05MX) (string, byte) {
 			return "fail", 0
 		case kind == 'n' || !ad:
 			return "none", 0
-		case kind == 'u':
+		case !c05KindUsable(kind):
 			return "unusable", kind
 		}
 		return "usable", kind
@@ -893,14 +1350,65 @@ func c05Discovery(m c05MX) string {
 	return st
 }
 
-// does the governing RRset authenticate the certificate the server presents?
+// the certificates of the run (set by TestVerifC05; the monitor computes matches from them)
+var c05ThePKI *c05PKI
+
+func c05RecMatchesCert(r c05Rec, c *x509.Certificate) bool {
+	var data []byte
+	switch r.selector {
+	case 0:
+		data = c.Raw
+	case 1:
+		data = c.RawSubjectPublicKeyInfo
+	default:
+		return false
+	}
+	switch r.mtype {
+	case 0:
+		return hex.EncodeToString(data) == r.data
+	case 1:
+		h := sha256.Sum256(data)
+		return hex.EncodeToString(h[:]) == r.data
+	}
+	return false
+}
+
+// Does the governing RRset authenticate the server?  Computed from the published records and the chain the
+// server presents (RFC 7672 §3.1): a DANE-EE (usage 3) record must match the END-ENTITY certificate — the first
+// one, the one whose key the server proved possession of; name and issuer are irrelevant.  A DANE-TA (usage 2)
+// record must match a presented CA certificate that the end-entity certificate was issued by (directly: the
+// chains here have one level), and the end-entity certificate must name the MX.
 func c05DaneMatches(m c05MX) bool {
 	_, kind := c05Governing(m)
-	switch kind {
-	case 'e':
-		return true // DANE-EE: name and issuer are irrelevant
-	case 't':
-		return m.cert != 'w' // DANE-TA: chain to the asserted anchor AND name check
+	if kind == 0 {
+		return false
+	}
+	chain := c05ThePKI.presented(m.cert, m.chain)
+	leaf := chain[0]
+	for _, r := range c05TLSARecs(c05ThePKI, kind, m.cert, m.chain) {
+		switch r.usage {
+		case 3:
+			if c05RecMatchesCert(r, leaf) {
+				return true
+			}
+		case 2:
+			for _, c := range chain[1:] {
+				if c.IsCA && c05RecMatchesCert(r, c) && leaf.CheckSignatureFrom(c) == nil &&
+					leaf.VerifyHostname(strings.TrimSuffix(c05MXHost(m), ".")) == nil {
+					return true
+				}
+			}
+		}
+	}
+	return false
+}
+
+// does the governing RRset contain a usable (DANE-EE / DANE-TA) record at all?
+func c05KindUsable(kind byte) bool {
+	for _, r := range c05TLSARecs(c05ThePKI, kind, 'v', '2') {
+		if r.usage == 2 || r.usage == 3 {
+			return true
+		}
 	}
 	return false
 }
@@ -1010,6 +1518,9 @@ func c05Monitor(out *vh.Out, h c05Hist, obs []c05MsgObs, events []c05Event) {
 		}
 	}
 	for mi, m := range h.msgs {
+		if obs[mi].victim {
+			continue // cancelled and aborted by its caller: no status to judge (its DATA events, if any, were judged above)
+		}
 		f := c05PoliciesInForce(h.cfg, m)
 		for i, di := range m.rcpts {
 			res := obs[mi].rcpt[i]
@@ -1083,15 +1594,19 @@ func c05GenMX(r *vh.Rng, srv int) c05MX {
 		stsMatch: r.Chance(65),
 		aAD:      r.Chance(70),
 		tlsaAD:   r.Chance(75),
-		tlsa:     pickB("netmuf", 25, 20, 15, 12, 10, 18),
+		tlsa:     pickB(c05TLSAKinds, 25, 18, 13, 10, 9, 16, 5, 2, 2),
 		reqtls:   r.Chance(60),
 		slow:     r.Chance(4),
+	}
+	// the presented chain: a further certificate (the genuine MX's, or a foreign CA's) after / between leaf and issuer
+	if r.Chance(25) {
+		m.chain = byte('1' + r.Intn(6))
 	}
 	// the MX name is an alias: signed / unsigned CNAME RRset, an independent TLSA outcome at the initial
 	// name, the canonical name more often in a signed zone (both base domains are then consulted)
 	if r.Chance(35) {
 		m.alias = pickB("si", 75, 25)
-		m.tlsaI = pickB("netmuf", 30, 18, 12, 12, 8, 20)
+		m.tlsaI = pickB(c05TLSAKinds, 30, 16, 11, 10, 8, 18, 4, 2, 1)
 		m.tlsaIAD = r.Chance(75)
 		m.cnameErr = r.Chance(12)
 		if r.Chance(50) {
@@ -1105,7 +1620,37 @@ func c05GenMX(r *vh.Rng, srv int) c05MX {
 			}
 		}
 	}
+	// a record kind needs the certificate it refers to in the chain
+	for _, k := range []byte{m.tlsa, m.tlsaI} {
+		if (k == 'p' || k == 'a') && m.chain == 0 {
+			m.chain = byte('1' + r.Intn(6))
+		}
+	}
+	for _, k := range []byte{m.tlsa, m.tlsaI} {
+		if (k == 't' || k == 'i') && (m.chain == '1' || m.chain == '4') {
+			m.chain += byte(1 + r.Intn(2))
+		}
+	}
 	return m
+}
+
+// an impostor in front of domain 0: it presents its own end-entity certificate (any verdict) followed by the genuine
+// MX's certificate; the authenticated RRset pins the genuine certificate (DANE-EE) — or a certificate off the path (DANE-TA)
+func c05Impostor(r *vh.Rng, m *c05MX) {
+	m.up, m.starttls, m.aAD, m.tlsaAD = true, 'o', true, true
+	m.cert = "uuwv"[r.Intn(4)]
+	m.chain = byte('1' + r.Intn(3))
+	m.tlsa = 'p'
+	if r.Chance(25) {
+		m.chain = byte('1' + r.Intn(6))
+		m.tlsa = "paai"[r.Intn(4)]
+		if m.tlsa == 'i' && (m.chain == '1' || m.chain == '4') {
+			m.chain++
+		}
+	}
+	if m.alias != 0 {
+		m.alias, m.tlsaI, m.tlsaIAD, m.cnameErr = 's', "nmpe"[r.Intn(4)], true, false
+	}
 }
 
 func c05GenHist(r *vh.Rng) c05Hist {
@@ -1150,35 +1695,116 @@ func c05GenHist(r *vh.Rng) c05Hist {
 			}
 		}
 	}
+	if r.Chance(6) {
+		c.dane = true
+		c05Impostor(r, &h.doms[0].mxs[0])
+	}
 	n := 1 + r.Intn(3)
 	for i := 0; i < n; i++ {
-		m := c05Msg{}
+		h.msgs = append(h.msgs, c05GenMsg(r))
+	}
+	return h
+}
+
+func c05GenMsg(r *vh.Rng) c05Msg {
+	m := c05Msg{}
+	switch r.Intn(10) {
+	case 0, 1:
+		m.requireTLS = true
+	case 2, 3, 4:
+		m.tlsNo = true
+	case 5:
+		m.requireTLS, m.tlsNo = true, true
+	}
+	if r.Chance(10) {
+		m.quarantine = 1 + r.Intn(2)
+	}
+	switch r.Intn(10) {
+	case 0:
+		m.rcpts = []int{0, 1}
+	case 1:
+		m.rcpts = []int{1, 0}
+	case 2:
+		m.rcpts = []int{0, 0}
+	case 3:
+		m.rcpts = []int{1}
+	case 4:
+		m.rcpts = []int{0, 1, 0}
+	default:
+		m.rcpts = []int{0}
+	}
+	return m
+}
+
+// overlapping deliveries to domain 0 on a random world: 2-3 deliveries start while the MTA-STS fetch / the TLSA
+// answers / the MX answer are held back, one of them (mostly the one that started first) is cancelled or times out
+// meanwhile; sometimes a message follows the batch (it finds what the batch left in the pool)
+func c05GenConc(r *vh.Rng) c05Hist {
+	h := c05GenHist(r)
+	h.msgs = nil
+	c := &c05Conc{gate: "ssssssttttmmm"[r.Intn(13)], kind: "cccdd"[r.Intn(5)], k: 2}
+	if r.Chance(35) {
+		c.k = 3
+	}
+	switch {
+	case r.Chance(12):
+		c.victim = 9
+	case r.Chance(55):
+		c.victim = 0
+	default:
+		c.victim = r.Intn(c.k)
+	}
+	h.conc = c
+	if c.gate == 's' {
+		if r.Chance(85) {
+			h.cfg.mtasts = true
+		}
+		if r.Chance(50) {
+			h.doms[0].sts = 'e'
+		}
+	}
+	if c.gate == 't' && r.Chance(80) {
+		h.cfg.dane = true
+		for i := range h.doms[0].mxs {
+			h.doms[0].mxs[i].aAD = true
+		}
+	}
+	if r.Chance(60) { // the servers of domain 0 can be talked to: the healthy deliveries get somewhere
+		for i := range h.doms[0].mxs {
+			m := &h.doms[0].mxs[i]
+			m.up = true
+			if m.starttls == 'c' || m.starttls == 'h' {
+				m.starttls = 'o'
+			}
+		}
+	}
+	for i := 0; i < c.k; i++ {
+		m := c05Msg{rcpts: [][]int{{0}, {0}, {0}, {0}, {0, 1}, {0, 0}}[r.Intn(6)]}
 		switch r.Intn(10) {
 		case 0, 1:
 			m.requireTLS = true
-		case 2, 3, 4:
+		case 2, 3:
 			m.tlsNo = true
-		case 5:
+		case 4:
 			m.requireTLS, m.tlsNo = true, true
 		}
-		if r.Chance(10) {
-			m.quarantine = 1 + r.Intn(2)
-		}
-		switch r.Intn(10) {
-		case 0:
-			m.rcpts = []int{0, 1}
-		case 1:
-			m.rcpts = []int{1, 0}
-		case 2:
-			m.rcpts = []int{0, 0}
-		case 3:
-			m.rcpts = []int{1}
-		case 4:
-			m.rcpts = []int{0, 1, 0}
-		default:
-			m.rcpts = []int{0}
+		if r.Chance(5) {
+			m.quarantine = 2
 		}
 		h.msgs = append(h.msgs, m)
+	}
+	if c.victim != 9 && c.gate == 's' {
+		if !h.cfg.mtasts {
+			c.victim = 9 // nothing is fetched: nobody can be held at this gate
+		} else if !c05PoliciesInForce(h.cfg, h.msgs[c.victim]).mtasts {
+			h.msgs[c.victim].tlsNo = false
+		}
+	}
+	if (c.victim == 9 || c.gate != 't') && r.Chance(45) {
+		h.msgs = append(h.msgs, c05GenMsg(r))
+	}
+	if !c05ConcOK(h) {
+		panic("c05GenConc: ill-formed batch " + h.Op())
 	}
 	return h
 }
@@ -1283,6 +1909,30 @@ func c05FixedOps() []string {
 		// unsigned CNAME RRset: DANE does not apply / the CNAME-type query fails: deferred
 		"C05 hist 0010.-.10.10 0a:1.1.o.v.0.1.1.m.0.0.im10 0a:3.1.o.v.0.1.1.n.0.0.in01 000:0,1",
 		"C05 hist 0010.-.10.10 0a:1.1.o.v.0.0.1.n.0.0.sn01 0a:3.1.o.v.0.0.0.n.0.0.se10 000:0,1",
+		// DANE pins the END-ENTITY certificate.  An impostor (own key; unknown issuer / wrong name / even PKIX-valid)
+		// sends the genuine MX's certificate after its own: [leaf, G], [leaf, issuer, G], [leaf, G, issuer]; the
+		// authenticated RRset is the DANE-EE record of G.  Refused, also under min_tls_level authenticated / REQUIRETLS,
+		// as second candidate and behind an alias; the genuine-looking second domain is delivered to
+		"C05 hist 0010.-.10.10 0a:1.1.o.u1.0.1.1.p.0.0 0a:3.1.o.u2.0.1.1.e.0.0 000:0,1",
+		"C05 hist 0010.20.10.10 0a:1.1.o.u2.0.1.1.p.0.0 0a:3.1.o.w3.0.1.1.p.0.0 000:0,1",
+		"C05 hist 1011.21.10.10 1t:1.1.o.v3.1.1.1.p.1.0 1a:3.1.o.v1.0.1.1.p.1.0 000:0/100:0,1",
+		"C05 hist 0010.-.10.10 0a:1.0.o.v.0.1.1.n.0.0;2.1.o.w1.0.1.1.p.0.0 0a:3.1.o.u2.0.1.1.n.0.0.sp10 000:0,1/010:0",
+		// DANE-EE record of the presented ISSUER certificate; DANE-TA records of a presented certificate that is
+		// not on the path (foreign CA F; the non-CA certificate G); DANE-TA record of the issuer with F in between
+		"C05 hist 0010.20.10.10 0a:1.1.o.u.0.1.1.i.0.0 0a:3.1.o.v6.0.1.1.i.0.0 000:0,1",
+		"C05 hist 0010.-.10.10 0a:1.1.o.u5.0.1.1.a.0.0 0a:3.1.o.u2.0.1.1.a.0.0 000:0,1",
+		"C05 hist 0010.20.10.10 0a:1.1.o.u6.0.1.1.t.0.0 0a:3.1.o.w3.0.1.1.t.0.0 000:0,1",
+		// OVERLAPPING deliveries.  Enforce-mode MTA-STS, the only MX is not listed (or does not verify): two / three
+		// deliveries start while the policy fetch is in flight, the first / the last one is cancelled / times out
+		"C05 conc 1000.-.10.10 0e:1.1.o.v.0.0.0.n.0.0 0a:3.1.o.v.0.0.0.n.0.0 sc20 000:0/000:0",
+		"C05 conc 1000.-.10.10 0e:1.1.o.u.1.0.0.n.0.0 0a:3.1.o.v.0.0.0.n.0.0 sd30 000:0/000:0,1/000:0/000:0",
+		"C05 conc 1011.21.11.10 1e:1.1.s.v.0.1.1.n.0.0;2.1.o.v.1.1.1.n.1.0 0a:3.1.o.v.0.0.0.n.0.0 sc32 000:0/100:0/000:0/000:0",
+		"C05 conc 1000.-.10.10 0e:1.1.o.v.0.0.0.n.0.0 0a:3.1.o.v.0.0.0.n.0.0 sc29 000:0/000:0/000:0",
+		// … while the TLSA answers / the MX answer are held back (DANE with a matching / mismatching RRset)
+		"C05 conc 1010.-.10.10 0e:1.1.o.v.1.1.1.e.0.0 0a:3.1.o.v.0.0.0.n.0.0 tc20 000:0/000:0",
+		"C05 conc 0010.20.10.10 0a:1.1.o.u.0.1.1.m.0.0;2.1.o.u.0.1.1.e.0.0 0a:3.1.o.v.0.0.0.n.0.0 td31 000:0/000:0/000:0,1",
+		"C05 conc 1010.-.10.10 0e:1.1.o.v.0.1.1.e.0.0;2.1.o.v.1.1.1.n.0.0 0a:3.1.o.v.0.0.0.n.0.0 mc20 000:0/000:0/000:0",
+		"C05 conc 1001.11.11.1 1t:1.1.o.v.1.0.0.n.1.0 0a:3.1.o.v.0.0.0.n.0.0 md21 100:0,1/000:0/010:0",
 	}
 }
 
@@ -1313,6 +1963,7 @@ func c05Factors(h c05Hist) []string {
 		"mxAD=" + c05b(h.doms[0].mxAD), fmt.Sprintf("sts=%c", h.doms[0].sts), fmt.Sprintf("nmx=%d", len(h.doms[0].mxs)),
 		"up=" + c05b(m.up), fmt.Sprintf("starttls=%c", m.starttls), fmt.Sprintf("cert=%c", m.cert), "listed=" + c05b(m.stsMatch),
 		"aAD=" + c05b(m.aAD), "tlsaAD=" + c05b(m.tlsaAD), fmt.Sprintf("tlsa=%c", m.tlsa), "reqtls=" + c05b(m.reqtls),
+		"chain=" + string(rune(m.chain+'0'*c05b2i(m.chain == 0))),
 		"msg=" + c05b(msg.requireTLS) + c05b(msg.tlsNo) + strconv.Itoa(msg.quarantine),
 		"alias=" + c05AliasTag(m), c05AliasFactor(m, "tlsaI", string(m.tlsaI)), c05AliasFactor(m, "tlsaIAD", c05b(m.tlsaIAD)),
 		c05AliasFactor(m, "cnameErr", c05b(m.cnameErr)),
@@ -1334,7 +1985,14 @@ func c05AliasFactor(m c05MX, name, val string) string {
 }
 
 // number of values of each factor, in the order of c05Factors
-var c05FactorSizes = []int{2, 2, 2, 10, 2, 2, 3, 2, 4, 2, 2, 4, 3, 2, 2, 2, 6, 2, 12, 3, 7, 3, 3}
+var c05FactorSizes = []int{2, 2, 2, 10, 2, 2, 3, 2, 4, 2, 2, 4, 3, 2, 2, 2, 9, 2, 7, 12, 3, 10, 3, 3}
+
+func c05b2i(b bool) byte {
+	if b {
+		return 1
+	}
+	return 0
+}
 
 type c05Pairwise struct{ seen map[string]bool }
 
@@ -1365,6 +2023,9 @@ func c05OneCase(t *testing.T, out *vh.Out, pki *c05PKI, h c05Hist, rng *vh.Rng, 
 	env := c05Setup(t, h, pki, rng, verbose)
 	obs := c05Run(t, h, env)
 	env.Close()
+	if len(obs) != len(h.msgs) {
+		return // the schedule of a `conc` case got stuck (reported as a test failure)
+	}
 	env.world.mu.Lock()
 	events := append([]c05Event(nil), env.world.events...)
 	env.world.mu.Unlock()
@@ -1385,7 +2046,24 @@ func c05OneCase(t *testing.T, out *vh.Out, pki *c05PKI, h c05Hist, rng *vh.Rng, 
 	if pooledUse {
 		out.Stat("c05.hist.with-reuse")
 	}
+	if c := h.conc; c != nil {
+		out.Stat(fmt.Sprintf("c05.conc.gate=%c.end=%c", c.gate, c.kind))
+		out.Stat(fmt.Sprintf("c05.conc.k=%d.victim=%d", c.k, c.victim))
+		out.Stat(fmt.Sprintf("c05.conc.followed-by=%d", len(h.msgs)-c.k))
+		for mi := 0; mi < c.k; mi++ {
+			if mi != c.victim {
+				f := c05PoliciesInForce(h.cfg, h.msgs[mi])
+				out.Stat(fmt.Sprintf("c05.conc.healthy.rcpt0=%s.mtasts=%s.sts=%c.dane=%s", obs[mi].rcpt[0], c05b(f.mtasts), h.doms[0].sts, c05b(f.dane)))
+			}
+		}
+	}
 	for mi, m := range h.msgs {
+		if obs[mi].victim {
+			for i := range m.rcpts {
+				out.Stat("c05.conc.victim.rcpt=" + obs[mi].rcpt[i])
+			}
+			continue
+		}
 		kind := "plain"
 		switch {
 		case m.quarantine != 0:
@@ -1513,6 +2191,7 @@ func TestVerifC05(t *testing.T) {
 	out := vh.Open("c05")
 	defer out.Close()
 	pki := c05NewPKI()
+	c05ThePKI = pki
 
 	// the package-level logger: silence it, but count the futures that were set twice (a lookup
 	// goroutine delivering its result to a future it was not started for)
@@ -1589,4 +2268,9 @@ func TestVerifC05(t *testing.T) {
 		out.Stat("c05.random")
 	}
 	pw.report(out)
+	// overlapping deliveries (one tenth of the random histories)
+	for i := 0; i < n/10; i++ {
+		c05OneCase(t, out, pki, c05GenConc(rng.Fork()), rng, false)
+		out.Stat("c05.random-conc")
+	}
 }
